@@ -137,12 +137,6 @@ package asp
 // l + x must never write into l's backing array: a list may have spare capacity (filter(), comprehensions,
 // split()), and appending into it would make `l + a` and `l + b` share — and overwrite — each other's tail.
 // With `opt appendalias=on` an append to a slice not known to be full counts as a write to its origin.
-//@ func (pyList).Operator
-//@   property C16 C17
-//@   modifies heap
-//@   opt nopanic=off
-//@   opt panics=allowed
-//@   opt appendalias=on
 
 // ---------------------------------------------------------------------------------------------
 // Frozen containers cannot be written (C17)
@@ -333,3 +327,31 @@ package asp
 //@   opt panics=allowed
 //@   opt inline=off
 //@   ensures union_is_a_new_dict [C17 C16]: operator == Union ==> dyntype(result, pyDict) && unbox(result, pyDict) != d
+
+// Frozen lists are accepted by the language constructs that take a list as well (C18): slicing, tuple
+// unpacking, "%" interpolation and list comparison may not reject a value for being a frozen list.
+//@ func (scope).interpretSlice
+//@   opt nopanic=off
+//@   opt panics=allowed
+//@   opt inline=off
+//@   opt precall=off
+//@   callsite (scope).Error frozen_lists_can_be_sliced [C18]: !listlike(obj)
+//@ func (scope).interpretIdentStatement
+//@   opt nopanic=off
+//@   opt panics=allowed
+//@   opt inline=off
+//@   opt precall=off
+//@   callsite (scope).Assert frozen_lists_can_be_unpacked [C18]: contains(arg_msg, "Cannot unpack") && listlike(obj) ==> arg_condition
+//@ func (pyString).Operator
+//@   opt nopanic=off
+//@   opt panics=allowed
+//@   opt inline=off
+//@   opt precall=off
+//@   callsite panic frozen_lists_can_be_interpolated [C18]: hasPrefix(unbox(arg0, string), "Argument to string interpolation") ==> !listlike(operand)
+//@ func (pyList).Operator
+//@   property C16 C17
+//@   modifies heap
+//@   opt nopanic=off
+//@   opt panics=allowed
+//@   opt appendalias=on
+//@   callsite panic frozen_lists_can_be_compared [C18]: hasPrefix(unbox(arg0, string), "Cannot compare list") ==> !listlike(operand)
